@@ -24,6 +24,8 @@ import (
 
 	"github.com/saucelabs/forwarder/internal/zzverif/bubble"
 	"github.com/saucelabs/forwarder/internal/zzverif/explore"
+	"github.com/saucelabs/forwarder/internal/zzverif/tsched"
+	"github.com/saucelabs/forwarder/internal/zzverif/vsync"
 )
 
 var (
@@ -196,6 +198,46 @@ func concurrentScenario(x *explore.X) {
 	x.Outcome(fmt.Sprintf("conc n=%d", n))
 }
 
+// interleavedScenario (Engine T): 2-3 scheduler threads call cert() for colliding names over a cache of
+// capacity 1; scheduling points sit before every c.certs.Get / c.certs.Add (inserted by tools/instr), so
+// every interleaving of the check-then-act sequence Get -> verify -> create -> Add within the preemption
+// bound is explored. Every caller must receive a certificate that verifies for its own name.
+func interleavedScenario(t *testing.T, x *explore.X) {
+	n := 2 + x.ChooseFree("threads-2", 2)
+	pick := make([]string, n)
+	for i := range pick {
+		pick[i] = []string{"a.test", "b.test", "A.test", "127.0.0.1"}[x.ChooseFree(fmt.Sprintf("name%d", i), 4)]
+	}
+	warm := x.ChooseFree("warm-cache", 2) == 1
+	var c *Config
+	var ca *x509.Certificate
+	res := make([]*tls.Certificate, n)
+	errs := make([]error, n)
+	tsched.Run(t, x, time.Second, false, func() {
+		c, ca = newTestConfig(1, 30*time.Minute, time.Hour)
+		if warm {
+			c.cert(context.Background(), "a.test")
+			time.Sleep(31 * time.Minute) // the entry is expired when the threads start
+		}
+		for i := 0; i < n; i++ {
+			vsync.GoNamed(fmt.Sprintf("cert(%s)#%d", pick[i], i), func() {
+				res[i], errs[i] = c.cert(context.Background(), pick[i])
+			})
+		}
+	}, func(s *vsync.Scheduler) {
+		for i := 0; i < n; i++ {
+			if errs[i] != nil {
+				x.Failf("cert-error", "interleaved cert(%q): %v", pick[i], errs[i])
+				return
+			}
+			if !checkCert(x, res[i], ca, pick[i], fmt.Sprintf("interleaved callers %v, schedule %v", pick, s.Trace)) {
+				return
+			}
+		}
+		x.Outcome(fmt.Sprintf("interleaved n=%d", n))
+	})
+}
+
 // VerifAddCacheScenarios lets the external test package (which may import the whole proxy) add the
 // in-package scenarios to its suite.
 var VerifAddCacheScenarios = addCacheScenarios
@@ -207,4 +249,6 @@ func addCacheScenarios(t *testing.T, s *explore.Suite) {
 	s.Add(explore.Scenario{Name: "cache-quick", Remote: true, Tiers: []string{"quick"}, Run: run(func(x *explore.X) { cacheScenario(x, 3) })})
 	s.Add(explore.Scenario{Name: "cache-thorough", Remote: true, Tiers: []string{"thorough"}, Run: run(func(x *explore.X) { cacheScenario(x, 4) })})
 	s.Add(explore.Scenario{Name: "concurrent-callers", Remote: true, Run: run(concurrentScenario)})
+	s.Add(explore.Scenario{Name: "interleaved-callers", Remote: true, MaxDev: map[string]int{"quick": 2, "thorough": 3},
+		Run: func(x *explore.X) { interleavedScenario(t, x) }})
 }
